@@ -112,4 +112,42 @@ PROPS["C19"] = {
     "timeout": {"quick": 900, "thorough": 7200},
 }
 
+PROPS["C09"] = {
+    "extra_harness": ["TRACE"],
+    "level_text": "Theorems (Lean 4, client multiplexer and client stream transition systems, every label sequence, any number of callers): once the read loop has failed, the registry is empty and every call between register and unregister has its done signal raised (fail_closes_all); every call that has not returned has an enabled step of its own that needs neither the read loop nor the transport's read side (fail_enabled) and every such step strictly decreases a natural-number measure, at zero all calls have returned (fail_terminates, remaining_zero); a call that registers after the failure fails at once (late_register_fails); a unary success always stems from an envelope with the call's id that was read before (no_fabricated_success); the stream's terminal result is the verdict on what was read, never EOF without an OK trailer. Negative witness: with the pre-repair check-then-register the late caller hangs (bad_registerChecksErr). Tied to /repo by flags and the multiplexer skeletons, the Mux trace replay, and scenarios on the real client: the read failure injected after EVERY prefix of the response envelope sequence of each scenario, write side failing or writable, four error values incl. io.EOF, calls started before / during / after, and the forced late-register schedule (caller held between id allocation and registration until the failure is logged).",
+    "level_note": "Trusted: Lean kernel; extractor; harness. Liveness is enabledness plus a decreasing measure (no fairness formalisation); 'promptly' is checked as 'returns within the hang timeout'.",
+    "technique": "Lean 4 proof (inductive invariants + termination measure over the multiplexer LTS) + flags/skeletons + fault enumeration at every prefix and a forced schedule on the real client",
+    "props": ["Goat.MuxThms", "Goat.ClientStreamThms"],
+    "tie": ["Goat.Tie.C09"],
+    "theorems": ["fail_closes_all", "fail_enabled", "fail_terminates", "remaining_zero", "late_register_fails", "no_fabricated_success", "registry_exact", "recvCtx_enabled",
+                 "bad_registerChecksErr", "cs_terminal_result_is_verdict", "cs_eof_only_after_ok_trailer", "header_always_released", "recv_results_classified"],
+    "rule": "one case = one (scenario, prefix length n of the response sequence, write mode, error value) run, or one forced-schedule run; non-trivial = at least one call in flight when the failure lands",
+    "modelled_not_verified": COMMON_MNV,
+    "assumptions": [],
+}
+PROPS["C10"] = {
+    "level_text": "Theorems (Lean 4, server connection transition system with 8 workers, any number of streams, most general handlers, every label sequence): after a read error, after a write error (the writer cancels the connection context) and after Stop, every non-input continuation of the read loop leads to `exited` within 3 steps and one is always enabled (serve_returns_on_read_err / _write_err / _stop, serve_can_return); the wait loop always makes progress and can finish (wait_loop_progress, wait_loop_can_finish); when Serve has returned every stream handler is gone, unregistered and cancelled (streams_finished_at_return); once the read loop has exited the connection context and every running unary handler's context are done (handlers_cancelled_at_return); once the connection context is done the writer and each worker has an enabled own step that brings it closer to `exited` (no_goroutine_left). Negative witnesses: unary_ctx_survives_conn, worker_stuck_in_handoff. Tied to /repo by 5 flags and the server skeletons, and by scenarios on the real Serve over a scripted transport: read failure and Stop after each prefix of the request sequence, write failure after j responses, 0-3 (quick) / 0-8 (thorough) unary and streaming handlers blocked in receive / send / on their context; monitors: Serve returns, handler exits precede it, contexts done, goroutine census back to baseline.",
+    "level_note": "Trusted: Lean kernel; extractor; harness. Handlers are cooperative (return once their context is done) in the termination statements; 'Serve returns when a write fails' presupposes a transport whose Read honours its context (I8).",
+    "technique": "Lean 4 proof (inductive invariants, distance measures over the server connection LTS) + flags/skeletons + fault enumeration at every position on the real Serve with goroutine census",
+    "props": ["Goat.ServerConnThms"],
+    "tie": ["Goat.Tie.C10"],
+    "theorems": ["serve_returns_on_read_err", "serve_returns_on_write_err", "serve_returns_on_stop", "serve_can_return", "wait_loop_progress", "wait_loop_can_finish",
+                 "streams_finished_at_return", "handlers_cancelled_at_return", "no_goroutine_left", "unary_ctx_survives_conn", "worker_stuck_in_handoff", "unregister_never_blocks", "srv_registry_exact"],
+    "rule": "one case = one (handler mix, fault kind, position) run; non-trivial = at least one handler in flight",
+    "modelled_not_verified": COMMON_MNV,
+    "assumptions": ["I8"],
+}
+PROPS["C11"] = {
+    "extra_harness": ["TRACE"],
+    "level_text": "Theorems (Lean 4, every reachable state, any number of streams/callers): whenever the server read loop is parked in the forwarding select (holding the registry lock) one of its own completions is enabled or the target handler - or the writer it waits for - can step (srv_no_wedge); likewise inside resetStream (reset_no_wedge); on the client, whenever the read loop holds a looked-up envelope the mutex is free and delivery, drop, or a step of the owner that leads there is enabled (mux_no_wedge, mux_no_wedge_take, mux_no_wedge_unregister). Negative witnesses: wedge_witness (server, pre-repair: no non-environment label enabled, for all labels), bad_dispatchOutsideLock (client deadlock incl. a bystander's register). Tied to /repo by flags, skeletons, the Mux trace replay, and scenarios on the real code: handlers returning after k of n messages for all 0<=k<n<=4 (8 thorough) with the forced order (handler held until the read loop is parked under the lock), callers cancelling with m responses unread, peers sending more than expected, 0-4 bystanders and a probe with a deadline afterwards.",
+    "level_note": "Trusted: Lean kernel; extractor; harness. Known finding caller-never-reads (#10): a caller that neither reads nor cancels parks the client read loop; reproduced and printed as KNOWN-FINDING, never as a violation unless the probe hangs beyond its deadline.",
+    "technique": "Lean 4 proof (deadlock-freedom: enabledness under an inductive invariant; decide-checked deadlock witnesses) + flags/skeletons + forced schedules on the real code",
+    "props": ["Goat.ServerConnThms", "Goat.MuxThms"],
+    "tie": ["Goat.Tie.C11"],
+    "theorems": ["srv_no_wedge", "reset_no_wedge", "wedge_witness", "wedged_workers", "mux_no_wedge", "mux_no_wedge_take", "mux_no_wedge_unregister", "recvCtx_enabled", "bad_dispatchOutsideLock", "unregister_never_blocks"],
+    "rule": "one case = one (kind, k, n, bystanders, forced/unforced) early-return run, one (m, extra) cancel-unread run, or one scripted-peer sequence, each followed by a probe; non-trivial = the abandoned stream has at least one unread message",
+    "modelled_not_verified": COMMON_MNV,
+    "assumptions": ["I10"],
+}
+
 NOT_YET = {}
